@@ -24,14 +24,18 @@ class CpuBudget(BaseException):
 LAST_PROF_AT = None
 
 
-def _where(fn: str) -> str | None:
-    """File-level location of a frame that belongs to the code under test (repository or a third-party dependency)."""
+def _where(fn: str, func: str | None = None) -> str | None:
+    """Location of a frame that belongs to the code under test: file level for a third-party dependency, file:function for the
+    repository itself (two stalls in different functions of one extractor are different mechanisms)."""
     if "/vlib/" in fn or "/checks/" in fn or fn.startswith("<"):
         return None
     if "/site-packages/" in fn:
         return "/".join(fn.split("/site-packages/", 1)[1].split("/")[:2])
     if "/sharepoint2text/" in fn:
-        return "/".join(fn.split("/")[-2:])
+        where = "/".join(fn.split("/")[-2:])
+        if func and not func.startswith("<"):
+            where += ":" + func
+        return where
     return None     # standard library frames (logging, re, struct ...) are skipped: they run on behalf of a caller further out
 
 
@@ -41,7 +45,7 @@ def _on_prof(signum, frame):
     f = frame
     where = None
     while f is not None:
-        where = _where(f.f_code.co_filename)
+        where = _where(f.f_code.co_filename, f.f_code.co_name)
         if where:
             break
         f = f.f_back
